@@ -191,6 +191,11 @@ func (p *Propagator) beaconsPerInterface(
 // shouldIgnore indicates whether a beacon should not be sent on the egress
 // interface because it creates a loop.
 func (p *Propagator) shouldIgnore(bseg beacon.Beacon, intf *ifstate.Interface) bool {
+	for _, entry := range bseg.Segment.ASEntries {
+		if entry.Local.Equal(p.IA) {
+			return true
+		}
+	}
 	if err := beacon.FilterLoop(bseg, intf.TopoInfo().IA, p.AllowIsdLoop); err != nil {
 		return true
 	}
